@@ -192,7 +192,7 @@ def run(rep: Report, tier: str) -> None:
     rc = rep.rule("C07.c", "every touched account is a key of final; one Balance per key with name-aligned figures", floor=6)
     spec = spec_effects(bm.tx_var)
     for kind in ("in", "intra", "out"):
-        normal = [p for p in bm.paths_for(kind) if p.exit == "fall"]
+        normal = [p for p in bm.paths_for(kind) if p.exit in ("fall", "continue")]  # both reach the back edge: a "continue" path is a completed replay of the transaction too
         if not normal:
             raise AnalysisError(f"no normally-completing replay path for {kind}-transactions")
         for p in normal:
@@ -307,6 +307,16 @@ def run(rep: Report, tier: str) -> None:
             "the sum of final balances differs from the unconsumed lot amounts whenever the two disagree",
             loc(f.node),
         )
+
+    # reconciliation premise: the matcher only consumes what is a taxable event, so every flow the replay debits must be one
+    from . import c03, c10
+
+    rg = rep.rule("C07.g", "every out-transaction and every transfer with a non-zero fee is a taxable event (C03.a, C03.c restated): what the replay debits is what the matcher consumes", floor=30)
+    sub = Report("C03", tier)
+    c03.run(sub, tier)
+    rep.absorb(sub, rg, ("C03.a", "C03.c"), "taxable-event set")
+    rh = rep.rule("C07.h", "transactions reported for the window are those the replay counted: the entry-set iterator cuts on the own calendar date like the replay", floor=2)
+    c10.check_iterator_window(rep, rh, m, "the transactions listed for the period and the flows behind the balances would be cut at different day boundaries")
 
     # ---------------------------------------------------------------- C07.f
     rf = rep.rule("C07.f", "per-holder totals accumulate each balance's final balance under its own holder", floor=2)
